@@ -34,7 +34,7 @@ func c08Compare(c *Ctx, o *opCase, d Delivery) {
 	var before []byte
 	seekTo := false
 	if !o.e.NeedSeek && !strings.HasPrefix(o.e.Name, "imagetype.") && x.Chance(1, 5) {
-		n := []int{1, 37, 512, 4095, 4096, 5000}[x.Intn(6)] + x.Intn(40)
+		n := []int{1, 37, 512, 4095, 4096, 5000, 4060, 8150}[x.Intn(8)] + x.Intn(40)
 		before = gen.ScreenTIFF(x.Sub().Bytes(n))
 		seekTo = !seekFail && x.Bool()
 		c.Inc("fault:handed-over-midstream:configured")
